@@ -594,9 +594,14 @@ pub fn limits(
             stop_handed_at_poll: None,
             // a remaining-clock limit binds only under C14's precondition (overhead <= R/2): with a
             // larger overhead the engine deliberately budgets from the overhead value instead
-            caller_deadline_ns: pending_limit
-                .filter(|(l, is_clock)| !*is_clock || (move_overhead.as_nanos() as u64).saturating_mul(2) <= *l)
-                .map(|(l, _)| now.saturating_add(l)),
+            // (with a larger overhead the engine deliberately budgets from the overhead value instead:
+            // its hard limit is then at most half of max(R - overhead, overhead), so max(R, overhead)
+            // is a limit that still binds)
+            caller_deadline_ns: pending_limit.map(|(l, is_clock)| {
+                let ov = move_overhead.as_nanos() as u64;
+                let limit = if is_clock && ov.saturating_mul(2) > l { l.max(ov) } else { l };
+                now.saturating_add(limit)
+            }),
             polls_past_deadline: 0,
             calls_since_poll: 0,
             finished: false,
